@@ -92,7 +92,7 @@ Proof.
     cbn [apply_batch_op edit] in *. unfold has_key in He. rewrite <- Icols in He.
     destruct (aget k (b_cols s)) eqn:G; [|discriminate]. cbn in He.
     destruct (mem_name k (b_existing s)) eqn:Eex; [|discriminate]. apply mem_name_In in Eex.
-    destruct (existsb (fun x => mem_name k (x_cols x)) (tb_idx T)); [discriminate|].
+    destruct (existsb _ (tb_idx T)); [discriminate|].
     destruct (existsb (fun c => negb (is_primary c) && mem_name k (k_cols c)) (tb_cons T)) eqn:Ec; [discriminate|].
     inversion Hm; inversion He; subst s' T'; clear Hm He.
     assert (Hkz : ~ In k zs) by (apply (NoDup_app_notin (b_existing s)); auto; rewrite <- Iex; auto).
@@ -283,7 +283,7 @@ Proof.
   assert (Hsnd : map snd cols = map (getc (b_cols s)) sorted) by (rewrite Ec, map_map; auto).
   destruct (has_dup (map (fun p => c_name (snd p)) cols)) eqn:Hdup; [discriminate|]. destruct (no_transfer trs); [discriminate|].
   match goal with |- context [existsb ?g (flat_map x_cols (b_idx s))] => destruct (existsb g (flat_map x_cols (b_idx s))); [discriminate|] end.
-  destruct (negb (forallb _ (b_newidx s))); [discriminate|]. destruct (negb (forallb _ (b_idx s ++ b_newidx s))); [discriminate|].
+  destruct (negb (forallb _ (b_newidx s))); [discriminate|]. destruct (negb (forallb _ (b_idx s ++ b_newidx s))); [discriminate|]. destruct (negb (forallb _ (b_idx s ++ b_newidx s))); [discriminate|].
   intros E. inversion E as [[End Ecm]]; clear E. exists sorted.
   assert (Hkept : filter (fun c => sub_names (k_cols c) (akeys trs)) (b_named s) = b_named s).
   { apply filter_all. intros c Hc. rewrite Hkt. rewrite (sub_names_ext _ sorted (akeys (b_cols s)) Hmem).
